@@ -986,6 +986,16 @@ class World:
         if exp[0] in ("raises", "maybe-raises"):
             if out.kind == "exc":
                 self.count("raised-as-expected")
+                if P == "C14":
+                    self.nontrivial.add((
+                        k, op.get("slot"), op.get("how"),
+                        catalog.canon(op.get("value"))[:40],
+                        catalog.canon(op.get("cfault"))[:80],
+                        catalog.canon((op.get("pt") or {}).get("mutate"))[:60],
+                        catalog.canon({x: y for x, y in (op.get("spec")
+                                       or {}).items() if "static" in y
+                                       })[:60] if op.get("expect_raise")
+                        else "", type(out.exc).__name__))
                 if not isinstance(out.exc, exp[1]) and not any(
                         isinstance(e, exp[1]) for e in exc_chain(out.exc)):
                     if exp[1] == (ValueError, TypeError) or \
@@ -1088,6 +1098,14 @@ class World:
             return
         if k in ("remove", "drop") or (k == "remove_all" and
                                        op.get("via") == "h"):
+            if P == "C02":
+                self.evals += 1
+                n = len(ctx["pre_model"].points)
+                if 0 < want < n:
+                    self.nontrivial.add((
+                        k, queryast.shape(op["q"]) if k == "remove" else "-",
+                        op.get("m") is not None, n, want, ctx["pre_valid"],
+                        self.csv))
             if got != want:
                 o = {"C02"}
                 if P in ("C11", "C12", "C13") and self.faulted:
@@ -1096,6 +1114,18 @@ class World:
                           "match" % (k, _brief(op), got, want), i)
             return
         if k in ("update", "update_all"):
+            if P == "C03":
+                self.evals += 1
+                n = len(ctx["pre_model"].points)
+                if want > 0:
+                    self.nontrivial.add((
+                        k, tuple(sorted(op["spec"])),
+                        tuple(sorted(x for x in op["spec"]
+                                     if isinstance(op["spec"][x], dict)
+                                     and "fn" in op["spec"][x])),
+                        queryast.shape(op["q"]) if k == "update" else "-",
+                        op.get("m") is not None, min(n, 8), min(want, 8),
+                        ctx["pre_valid"], self.csv))
             if got != want:
                 o = {"C03"}
                 if P in ("C11", "C12", "C13") and self.faulted:
